@@ -201,6 +201,10 @@ def api_level(ctx, thorough):
         for ncalls in (9, 10):
             fixed.append(dict(inst=fullstack.INST, horizon=8000, faults=[(2300, "refuse"), (E, "eof"), (2399, "accept")],
                               calls=[(E + 1 + i // 3, ["power", "zone", "toggle"][i % 3]) for i in range(ncalls)]))
+    # a congested link around a heartbeat instant: the write of the heartbeat is held up for 5 s .. 4 min (the console still gets the
+    # request and answers; the link stays up): heartbeats go on every 300 s, no reset
+    for t0, hold in ((2399, 40), (2399, 360), (2390, 1900), (4799, 360), (2400, 240)):
+        fixed.append(dict(inst=fullstack.INST, horizon=10000, faults=[(t0, "block"), (t0 + hold, "unblock")]))
     for gen in (4, 5):
         for sc in fixed + [_api_scenario(rng) for _ in range(n)]:
             cases.append((gen, sc))
@@ -242,7 +246,7 @@ def api_level(ctx, thorough):
     ctx.coverage["rule"] += (
         " API level: the real AirTouch4 / AirTouch5 object over the real socket against a scripted console whose answers to the heartbeat "
         "requests follow a pattern (delay 1 / 8 / 239 / 245 / 300 ticks or never, per heartbeat), with and without a console-side close and a "
-        "refusing network for a while, and with the application's commands filling the send buffer during an outage that ends at a heartbeat instant; events start / conn / beat (a console-version request written after initialisation) / resp (the console's "
+        "refusing network for a while, and with the application's commands filling the send buffer during an outage that ends at a heartbeat instant, and with a congested link holding up the heartbeat's write for up to 4 min; events start / conn / beat (a console-version request written after initialisation) / resp (the console's "
         "version answer) / reset (reset_connection called by the heartbeat manager) judged by the Spec monitor with the package's default configuration.")
 
 
